@@ -9,7 +9,7 @@ EXPLANATION = ('Value-flow and guard rules over both drivers\' connected loops (
                'is cleared and write completion reported only when the whole batch was written and flushed, the outbound buffer has no other '
                'writer; the read hand-off passes exactly the bytes read; the WebSocket adapter\'s cursor arithmetic; submit paths validate '
                'first and produce a result on every failure path; the result sender resolves when dropped unsent; the operation receiver is '
-               'owned by the loop. Added in round 2: the tokio write arm awaits exactly one cancel-safe AsyncWriteExt::write and reports its count unchanged; no cancel-unsafe I/O helper is used in the connected loop.')
+               'owned by the loop. Added in round 2: the tokio write arm awaits exactly one cancel-safe AsyncWriteExt::write and reports its count unchanged; no cancel-unsafe I/O helper is used in the connected loop. Added in round 3 / after the mutation sweeps: the WebSocket write adapter never reports would-block for a queued message (defect 15); the read adapter as a whole (refill, store, drop, loop condition, would-block and final-error outcomes); the threaded result slot (store-when-empty + notify, wait-while-empty, polling reader).')
 ASSUMPTIONS = ['not decided: interleavings of submit/stop/close with the loop thread/task, transport fault sequences, the tokio WebSocket path (external stream-ws crate)',
                'library contract trusted: tokio::sync::oneshot::Sender resolves its receiver with an error when dropped unsent; a dropped mpsc receiver makes later sends fail']
 EXTRA_CONFIGS = ['tokio', 'threaded', 'threaded-ws']
@@ -233,10 +233,10 @@ def check(ctx, need):
                    'a fetch error other than would-block is recorded as the final error (before the loop goes on or the call returns)', 'ws|read-final-store', loc=wr.loc())
             wb = prims.edge_nodes_matching(wr, [r'^ws_stream::is_tungstenite_error_would_block\(\(WebSocket::read\(self\.stream\)\)@Err\.0\)$'])
             ctx.ob(bool(wb) and all(not (set(wr.reach([e_])) & (set(fe) | {sr[0].bb, rc[0].bb})) for e_ in wb) and
-                   prims.rets_after(wr, [r'^ws_stream::is_tungstenite_error_would_block\(', r'^\(0 < bytes_read\)$|^!\(bytes_read <= 0\)$']) == {'Ok'},
+                   prims.rets_after(wr, [r'^ws_stream::is_tungstenite_error_would_block\(', r'^\(0 < bytes_read\)$|^!\(bytes_read <= 0\)$|^!\(bytes_read == 0\)$|^\(bytes_read != 0\)$']) == {'Ok'},
                    'a transport would-block ends the call: with the count when something was copied, as would-block otherwise; it is never recorded as the final error', 'ws|read-would-block', loc=wr.loc())
             fs = prims.edge_nodes_matching(wr, [r'^self\.final_error is Some$'])
-            ctx.ob(bool(fs) and all(not (set(wr.reach([e_])) & {sr[0].bb, rc[0].bb}) for e_ in fs) and prims.rets_after(wr, [r'^self\.final_error is Some$', r'^\(0 < bytes_read\)$|^!\(bytes_read <= 0\)$']) == {'Ok'},
+            ctx.ob(bool(fs) and all(not (set(wr.reach([e_])) & {sr[0].bb, rc[0].bb}) for e_ in fs) and prims.rets_after(wr, [r'^self\.final_error is Some$', r'^\(0 < bytes_read\)$|^!\(bytes_read <= 0\)$|^!\(bytes_read == 0\)$|^\(bytes_read != 0\)$']) == {'Ok'},
                    'with a final error pending the call ends: bytes already copied are returned first, the error on the next call', 'ws|read-final-pending', loc=wr.loc())
             dr = [i for (i, s_, pe, rve) in wr.field_writes() if show(pe) == 'self.current_read_message' and show(rve) == 'Option::None{}']
             ok = len(dr) == 1 and guarded_any(wr, dr[0], NOTFULL) and dr[0] in wr.reach(list(wr.graph()[0][rc[0].bb]))
